@@ -1,3 +1,4 @@
+import Svgbob.Gen.StyleSheet
 import Svgbob.Model.Front
 import Svgbob.Model.Doc
 import Svgbob.Model.Pipeline
@@ -319,6 +320,10 @@ def handle (mode : String) (fields : List String) : String :=
       let cfg := pCfg cfgTok (unhex css0)
       let root := svgRoot (segColumns (parseEnv env)) cfg fo.cells fo.css fs gs
       "ok " ++ hexOfChars (Node.render cfg.den (pretty == "pretty") 0 root)
+  | "css", [sc, sw, bg, fill, ff, fs] =>
+    -- the base style sheet from the regenerated rules and the settings as the code prints them
+    hexOfChars (renderRules { strokeColor := unhex sc, strokeWidth := unhex sw, background := unhex bg,
+                              fillColor := unhex fill, fontFamily := unhex ff, fontSize := unhex fs } Gen.styleRules)
   | "cli", fs => cliRun fs
   | "http", [m, path, body, size] =>
     let meth := if m == "GET" then Method.get else if m == "POST" then Method.post else Method.other
